@@ -28,7 +28,7 @@ RULE = ("files: Node documents (harness object types with nested typed loads, ty
         "stream data, raw image data, image data, page look-up), random sequences up to length 12; each under {both, object only, stream only, no} caches; "
         "expected answers computed by the python oracle from the file's construction (and, for library-typed values, from the uncached run); "
         "non-trivial = at least 2 calls; distinct by (cfg, file, calls)")
-CASE_TIMEOUT = 20.0
+CASE_TIMEOUT = 10.0
 
 FIX = os.environ.get("VP_C12_FIXFLAGS", "11")      # model flags fix_a fix_b (11 = the code after the fix: commits)
 CFGS = ["11", "10", "01", "00"]
@@ -164,10 +164,13 @@ def node_scenarios(rng, tier):
 CHAINS = [["ASCIIHexDecode", "DCTDecode"], ["ASCII85Decode", "FlateDecode"], ["FlateDecode"], ["ASCIIHexDecode"],
           ["ASCIIHexDecode", "ASCII85Decode"], ["RunLengthDecode", "DCTDecode"], ["ASCIIHexDecode", "JPXDecode"],
           ["FlateDecode", "ASCIIHexDecode"], ["FlateDecode", "FlateDecode"], [], ["LZWDecode", "DCTDecode"],
-          ["ASCII85Decode", "ASCIIHexDecode", "FlateDecode"], ["DCTDecode"], ["ASCIIHexDecode", "FlateDecode", "DCTDecode"]]
+          ["ASCII85Decode", "ASCIIHexDecode", "FlateDecode"], ["DCTDecode"], ["ASCIIHexDecode", "FlateDecode", "DCTDecode"],
+          # every representation filter as the last one (the split point is the end of the list)
+          ["RunLengthDecode"], ["LZWDecode"], ["ASCII85Decode"], ["FlateDecode", "RunLengthDecode"], ["ASCIIHexDecode", "LZWDecode"],
+          ["CCITTFaxDecode"], ["ASCIIHexDecode", "JBIG2Decode"]]
 
 
-def library_doc(rng, chains, compressed=False):
+def library_doc(rng, chains, compressed=False, all_images=False):
     streams = {}
     objs = {
         1: {"Type": Name("Catalog"), "Pages": Ref(2)},
@@ -182,7 +185,7 @@ def library_doc(rng, chains, compressed=False):
     n = 8
     for ch in chains:
         payload = bytes(rng.randrange(256) for _ in range(rng.randint(1, 40)))
-        extra = dict(IMG) if rng.random() < 0.8 else {}
+        extra = dict(IMG) if (all_images or rng.random() < 0.8) else {}
         streams[n] = D.StreamObj(payload, ch, extra)
         n += 1
     for r, s in streams.items():
@@ -208,11 +211,9 @@ def library_scenarios(rng, tier):
     for di in range(n_docs):
         compressed = di % 3 == 2
         chains = [rng.choice(CHAINS) for _ in range(rng.randint(3, 5))]
-        if di == 0:
-            chains = CHAINS[:5]
-        if di == 1:
-            chains = CHAINS[5:]
-        data, streams, ids = library_doc(rng, chains, compressed)
+        if di < 3:
+            chains = CHAINS[di::3]          # every chain appears in the first three documents
+        data, streams, ids = library_doc(rng, chains, compressed, all_images=di < 3)
         opts = b"t" if di % 2 else b"s"
         tags = ["library", "compressed" if compressed else "direct"]
         model = not compressed
